@@ -93,6 +93,7 @@ fn case(inp: &[u64]) -> Result<(), String> {
 /// vectors longer than 2^32 bits (the 32-bit counters of RankSmall / SelectSmall overflow into the upper counts there);
 /// input: [extra bits above 2^32, stride of ones (sparse), seed]; ~0.6 GB per structure, built one at a time
 fn big_case(inp: &[u64]) -> Result<(), String> {
+    if inp.len() == 5 { return gap_case(inp); }
     let len = (1usize << 32) + inp[0] as usize;
     let stride = (inp[1] as usize).max(1000);
     let mut rng = Rng(inp[2] | 1);
@@ -136,10 +137,41 @@ fn big_case(inp: &[u64]) -> Result<(), String> {
     Ok(())
 }
 
+/// upper blocks (2^32 bits) WITHOUT an inventory element between upper blocks that have some; input [n0, offset in block 1, start in block 2, zeros?, 1]:
+/// n0 selected bits at the even positions of upper block 0, a single one in upper block 1, a thousand in upper block 2
+fn gap_case(inp: &[u64]) -> Result<(), String> {
+    let (n0, off1, off2, zeros) = (inp[0] as usize, inp[1] as usize, inp[2] as usize, inp[3] != 0);
+    let len: usize = (1usize << 33) + (1 << 20);
+    let mut b = BitVec::new(len);
+    if zeros { b.fill(true); }
+    let mut sel: Vec<usize> = Vec::new();
+    for i in 0..n0 { b.set(2 * i, !zeros); sel.push(2 * i); }
+    let p1 = (1usize << 32) + off1; b.set(p1, !zeros); sel.push(p1);
+    for k in 0..1000usize { let p = (1usize << 33) + off2 + 3 * k; b.set(p, !zeros); sel.push(p); }
+    let n = sel.len();
+    let rs = [n0, n0 - 1, n0 + 1, n0 + 2, 0, n - 1, n0 / 2, n0 + 500];
+    macro_rules! chk { ($name:expr, $s:expr) => {{ let s = $s; for &r in &rs { let g = s.select(r); if g != Some(sel[r]) { return Err(format!("{}: select({}) = {:?} expected {}", $name, r, g, sel[r])); } } }} }
+    macro_rules! chkz { ($name:expr, $s:expr) => {{ let s = $s; for &r in &rs { let g = s.select_zero(r); if g != Some(sel[r]) { return Err(format!("{}: select_zero({}) = {:?} expected {}", $name, r, g, sel[r])); } } }} }
+    if zeros {
+        chkz!("SelectZeroSmall<2,9>", SelectZeroSmall::<2, 9, _>::new(RankSmall::<2, 9, _>::new(b.clone())));
+        chkz!("SelectZeroSmall<1,11>", SelectZeroSmall::<1, 11, _>::new(RankSmall::<1, 11, _>::new(b.clone())));
+        chkz!("SelectZeroSmall<3,13>", SelectZeroSmall::<3, 13, _>::new(RankSmall::<3, 13, _>::new(b.clone())));
+        chkz!("SelectZeroAdapt", SelectZeroAdapt::new({ let x: AddNumBits<BitVec> = b.clone().into(); x }, 3));
+    } else {
+        chk!("SelectSmall<2,9>", SelectSmall::<2, 9, _>::new(RankSmall::<2, 9, _>::new(b.clone())));
+        chk!("SelectSmall<1,9>", SelectSmall::<1, 9, _>::new(RankSmall::<1, 9, _>::new(b.clone())));
+        chk!("SelectSmall<1,10>", SelectSmall::<1, 10, _>::new(RankSmall::<1, 10, _>::new(b.clone())));
+        chk!("SelectSmall<3,13>", SelectSmall::<3, 13, _>::new(RankSmall::<3, 13, _>::new(b.clone())));
+        chk!("Select9", Select9::new(Rank9::new(b.clone())));
+        chk!("SelectAdapt", SelectAdapt::new({ let x: AddNumBits<BitVec> = b.clone().into(); x }, 3));
+    }
+    Ok(())
+}
+
 pub fn run(case_name: &str, ctx: &mut Ctx, one: Option<&str>, rng: &mut Rng, budget: usize) {
     if case_name == "select_big" {
         if let Some(s) = one { let inp = parse_list(s); ctx.trial(s, false, || big_case(&inp)); return; }
-        for v in [vec![4096u64, 400_000, 5], vec![1 << 30, 3_000_000, 9], vec![(1 << 32) + 4096, 4, 11, 1 << 22], vec![(1 << 32) + 77, 300, 13, (1 << 32) + 5000]] { if budget < 1000 && v[0] > 5000 { continue; } let s = fmt_list(&v); ctx.trial(&s, false, || big_case(&v)); }
+        for v in [vec![4096u64, 400_000, 5], vec![1 << 30, 3_000_000, 9], vec![(1 << 32) + 4096, 4, 11, 1 << 22], vec![(1 << 32) + 77, 300, 13, (1 << 32) + 5000], vec![(1 << 24) + 1, (1 << 31) + 12345, 100, 0, 1], vec![(1 << 24) + 1, (1 << 31) + 777, 100, 1, 1], vec![(1 << 23) + 3, 5, 4000, 0, 1]] { if budget < 1000 && v[0] > 5000 { continue; } let s = fmt_list(&v); ctx.trial(&s, false, || big_case(&v)); }
         return;
     }
     let inv_mode = case_name == "select_inv";
